@@ -60,6 +60,7 @@ class Online(object):
         self.conn_id = None
         self.made = []  # ids handed to make so far
         self.hook_rate = rng.choice([0.0, 0.0, 0.1, 0.25, 0.5])
+        self.sync_rate = rng.choice([0.0, 0.0, 0.0, 0.15, 0.4])  # endpoints that answer connect() synchronously
 
     def emit(self, line):
         ob = self.run.ex(line)
@@ -97,6 +98,7 @@ class Online(object):
             c.append(("lost", w["lost"]))
         c += [("disconnect", w["disconnect"]), ("close", w["close"]), ("meta", w["meta"]), ("wfail", w["wfail"])]
         c.append(("stubborn", 0.25 if (r.attempt_pending() or r.world.net.stubborn) else 0.04))
+        c.append(("sync", self.sync_rate * (3.0 if r.sync != "none" else 1.0)))
         # rarely: an event the state does not enable (both sides must call it a no-op)
         c += [("connOk", 0.05), ("lost", 0.05), ("rawbytes", 0.05)]
         return c
@@ -188,6 +190,8 @@ class Online(object):
             self.emit("stubborn %d" % (0 if r.world.net.stubborn else 1))
             if r.world.net.stubborn and r.attempt_pending() and rng.random() < 0.7:
                 self.emit("close")  # the case the switch exists for: close() while the attempt is pending
+        elif k == "sync":
+            self.emit("sync %s" % rng.choice([m for m in ("none", "ok", "fail") if m != r.sync]))
         elif k == "wfail":
             self.emit("wfail %d" % (0 if r.wfail else 1))
             if r.wfail:
